@@ -240,6 +240,41 @@ func TestVerifC04(t *testing.T) {
 					rep.Violate("C04.404", sig, fmt.Sprintf("%s: status %d %q, want 404", u.url, r.Code, vTrim(r.Body)), map[string]any{"url": u.url})
 				}
 			}
+			// names that are not the name of any representation's segment, derived from real ones: extra characters before,
+			// after or inside the name, an extra directory level, another extension
+			for _, ap := range []string{"testpic_2s", "testpic_8s", "bbb_hevc_ac3_8s"} {
+				a, err := vAsset(vBundledRoot, ap)
+				if err != nil {
+					continue
+				}
+				valid := map[string]bool{}
+				var names []string
+				nr := 60000 / (a.LoopMS / int64(len(a.Ref.Segs)))
+				for _, r := range a.Reps {
+					n := vref.ExpandURL(strings.ReplaceAll(r.MediaTmpl, "$Time$", "$Number$"), r.ID, r.Bandwidth, nr, 0)
+					valid[n] = true
+					names = append(names, n)
+				}
+				sort.Strings(names)
+				for _, n := range names {
+					ext := n[strings.LastIndex(n, "."):]
+					for mi, m := range []string{"x" + n, "foo/" + n, n + "x", n + "/" + n, strings.Replace(n, ".", "x", 1), strings.TrimSuffix(n, ext), strings.TrimSuffix(n, ext) + ".mp4x", strings.Replace(n, "/", "//", 1)} {
+						if valid[m] {
+							continue
+						}
+						u := fmt.Sprintf("/livesim2/%s/%s?nowMS=100000", ap, m)
+						rep.Hit("C04.404")
+						rep.AddExecs(1)
+						r := vGet(srv, u)
+						if r.Code == 200 {
+							rep.Violate("C04.404", fmt.Sprintf("not-404:unknown-rep:mutation-%d:status-%d", mi, r.Code), fmt.Sprintf("%s: status 200 (%d bytes) for a name that is no representation's segment (derived from %s)", u, len(r.Body), n), map[string]any{"url": u})
+						} else if r.vCrashed() {
+							site, val := vPanicSite(srv.livesimHandlerFunc, "GET", u, nil)
+							rep.Violate("C04.404", "not-404:unknown-rep:panic:"+site, fmt.Sprintf("%s: handler crashed: %s", u, val), map[string]any{"url": u})
+						}
+					}
+				}
+			}
 			// every number below the start number (in particular startNumber - k x segments per loop)
 			// x representation kind x addressing x instants from stream start to far beyond the window
 			for _, as := range []struct {
